@@ -214,8 +214,8 @@ def leak_sites(stderr):
     sites = {}
     for m in LEAK_RE.finditer(stderr or ""):
         fn = None
-        for fm in re.finditer(r"#\d+ 0x[0-9a-f]+ in (.+?) (/[^\s:]+):\d+", m.group(4)):
-            if build.REPO in fm.group(2) or "/oratio-scratch" in fm.group(2):
+        for fm in re.finditer(r"#\d+ 0x[0-9a-f]+ in (.+?) ([^\s:()]+):\d+", m.group(4)):
+            if drv.is_repo_path(fm.group(2)):
                 fn = re.sub(r"\(.*", "", fm.group(1))
                 break
         if fn:
